@@ -2,4 +2,4 @@ From Coq Require Import Extraction ExtrOcamlBasic.
 From IV Require Import Base.Bytes Model.Policy Model.Smtp Model.Dot Model.SmtpWire Model.SmtpAddr Model.SmtpMailParse Model.Hooks Gen.ConfigPins.
 Extraction Language OCaml.
 Extraction "c06_model.ml" conv_anchor load_cfg run_bytes run_bytes_tls run_net run_net_w replies_of attach dialogue seq_ok reply_ok size_ok accept_ok
-  entitled store_after store_after_cap stored_source deliveries_of first_code init rcpt_of origin_of mail_facts_of size_seen_ok plain_mail_ok broker_emit table_listener session_answer deny_line smtp_domain_default.
+  entitled store_after store_after_cap stored_source deliveries_of first_code init rcpt_of origin_of mail_facts_of size_seen_ok plain_mail_ok broker_emit table_listener session_answer chain_add chain_emit deny_line smtp_domain_default.
